@@ -41,7 +41,12 @@ func cmdRand(args []string) {
 		argvs := [][]gh.Tok{}
 		all := []gh.Tok{}
 		for k := 0; k < per; k++ {
-			a := gh.ToksOf(gh.GenArgv(r, &p, &cfg))
+			var a []gh.Tok
+			if p.Comp {
+				a = gh.ToksOf(gh.GenCompLine(r, &p, &cfg))
+			} else {
+				a = gh.ToksOf(gh.GenArgv(r, &p, &cfg))
+			}
 			argvs = append(argvs, a)
 			all = append(all, a...)
 		}
@@ -52,6 +57,9 @@ func cmdRand(args []string) {
 		for _, a := range argvs {
 			id++
 			c := gh.Case{Ev: "case", Def: defID, ID: *idBase + id, Argv: a, Disp: p.Disp}
+			if p.Comp {
+				c.Comp = []string{"bash", "zsh"}[r.Intn(2)]
+			}
 			c.Res = gh.RunCase(&d, &c)
 			line, _ := json.Marshal(&c)
 			block = append(block, line)
